@@ -2832,6 +2832,18 @@ class RockRidge:
                     complen = RRSLRecord.Component.length(comp[offset:])
                     if complen > curr_comp_area_length:
                         length = curr_comp_area_length - 2
+                        # A piece of a longer name that happens to be '.' or
+                        # '..' would be recorded as the special 'current' or
+                        # 'parent' component, so split somewhere else.
+                        while length > 0 and (comp[offset:offset + length] in (b'.', b'..') or comp[offset + length:] in (b'.', b'..')):
+                            length -= 1
+                        if length == 0:
+                            if curr_sl.symlink_components and curr_comp_area_length < RRSLRecord.maximum_component_area_length():
+                                # No good place in what is left of this SL
+                                # record; go on in a new one.
+                                curr_comp_area_length = 0
+                                continue
+                            length = curr_comp_area_length - 2
                     else:
                         length = complen
                     compslice = comp[offset:offset + length]
